@@ -100,6 +100,25 @@ def replay_bin():
     return b if p.returncode == 0 and os.path.exists(b) else None
 
 
+def find_failing_input(pid):
+    """run the property's probe sets on the real crate; -> {'probe':..., 'output':...} for the first disagreement, else None"""
+    probes = getattr(obligations, 'PROBES', {}).get(pid, [])
+    if not probes:
+        return None
+    rb = replay_bin()
+    if rb is None:
+        return None
+    for pr in probes:
+        try:
+            r = subprocess.run([rb, 'probe', pr], capture_output=True, text=True, timeout=600)
+        except subprocess.TimeoutExpired:
+            return {'probe': pr, 'output': 'TIMEOUT (hang) in probe ' + pr, 'replay_cmd': rb + ' probe ' + pr}
+        if r.returncode != 0:
+            lines = [l for l in (r.stdout + r.stderr).splitlines() if 'FAILING-INPUT' in l or 'panicked' in l]
+            return {'probe': pr, 'output': '\n'.join(lines[:5]) or (r.stdout + r.stderr)[-800:], 'replay_cmd': rb + ' probe ' + pr}
+    return None
+
+
 def main():
     ap = argparse.ArgumentParser()
     ap.add_argument('pid', nargs='?')
@@ -117,6 +136,19 @@ def main():
         return 2
 
     def undecided(reason, cov=None):
+        # the verifier cannot decide this tree; a concrete failing input on the real crate still settles it
+        fi = None if reason.startswith(('replay-crate', 'no-check')) else find_failing_input(pid)
+        if fi:
+            os.makedirs(REPLAYS, exist_ok=True)
+            rpath = os.path.join(REPLAYS, '%s-probe-%s.json' % (pid, fi['probe']))
+            json.dump({'property': pid, 'failed_obligations': ['(verifier undecided: %s)' % reason], 'backend': 'native execution of the real crate vs reference implementation (replay/src/probes.rs)',
+                       'verifier_output': reason, 'input': fi, 'replay_cmd': fi['replay_cmd']}, open(rpath, 'w'), indent=1)
+            c2 = dict(cov or {})
+            c2.update({'obligations': max(1, c2.get('obligations', 1)), 'discharged': 0, 'checker_cmd': fi['replay_cmd'], 'trusted_base': c2.get('trusted_base', []), 'undecided_by_verifier': reason, 'failing_input': fi})
+            write_evidence(pid, a.tier, seed, t0, c2, ASSUMPTIONS_COMMON, 1)
+            print('FAILING-INPUT property=%s %s' % (pid, fi['output'].splitlines()[0][:300] if fi['output'] else ''))
+            print('VIOLATION property=%s replay=%s' % (pid, rpath))
+            return 1
         print('UNDECIDED property=%s reason=%s' % (pid, reason))
         cov = cov or {}
         cov.setdefault('obligations', 0)
@@ -127,6 +159,29 @@ def main():
         write_evidence(pid, a.tier, seed, t0, cov, ASSUMPTIONS_COMMON, 0)
         return 2
 
+    # 0. bounded measurements on the real crate: a crash / hang on a concrete input is a violation whatever the verifier says
+    measurements = []
+    meas = getattr(obligations, 'MEASUREMENTS', {}).get(pid, [])
+    if meas:
+        rb = replay_bin()
+        if rb is None:
+            return undecided('replay-crate-did-not-build')
+        measurements = []
+        for sub in meas:
+            try:
+                r = subprocess.run([rb, sub], capture_output=True, text=True, timeout=300)
+                rc, out = r.returncode, (r.stdout + r.stderr)
+            except subprocess.TimeoutExpired:
+                rc, out = -9, 'TIMEOUT (hang)'
+            measurements.append({'cmd': 'coset-replay ' + sub, 'rc': rc, 'label': 'bounded stand-in on the real crate, not counted as proved', 'output': out[-1500:]})
+            if rc != 0:
+                os.makedirs(REPLAYS, exist_ok=True)
+                rpath = os.path.join(REPLAYS, '%s-%s.json' % (pid, sub))
+                json.dump({'property': pid, 'failed_obligations': ['replay:' + sub], 'backend': 'native execution of the real crate', 'verifier_output': out[-3000:],
+                           'input': {'kind': 'generated by coset-replay ' + sub}, 'replay_cmd': rb + ' ' + sub}, open(rpath, 'w'), indent=1)
+                write_evidence(pid, a.tier, seed, t0, {'obligations': 1, 'discharged': 0, 'checker_cmd': rb + ' ' + sub, 'trusted_base': [], 'bounded_measurements': measurements}, ASSUMPTIONS_COMMON, 1)
+                print('VIOLATION property=%s replay=%s' % (pid, rpath))
+                return 1
     # 1. re-extract from the current working tree and run the verifier (result cached on the generated text)
     try:
         text, info = extract.generate()
@@ -137,6 +192,24 @@ def main():
         extra = ['-V', 'smt-option=smt.random_seed=%d' % seed] if False else []
     run = runverus.run_verus_on_text(text, 'coset_verus', extra)
     cls = runverus.classify(run)
+    # Kani harnesses do not depend on the Verus run: a failing complete harness is a violation with a concrete counterexample
+    kani = None
+    if any(k.startswith('kani') for _, k in obligations.OBLIGATIONS[pid]):
+        kani = runkani.run_all()
+        if kani['harnesses'] and kani.get('complete_summary'):
+            kfail = sorted(n for pat, k in obligations.OBLIGATIONS[pid] if k.startswith('kani') for n in kani['harnesses']
+                           if fnmatch.fnmatchcase(n, pat) and not kani['harnesses'][n].get('ok', False))
+            if kfail and cls == 'tool-error':
+                os.makedirs(REPLAYS, exist_ok=True)
+                cex = {'harness': kfail[0], 'kani_concrete_playback': runkani.counterexample(kfail[0])}
+                rpath = os.path.join(REPLAYS, '%s-kani-%s.json' % (pid, kfail[0].split('::')[-1]))
+                json.dump({'property': pid, 'failed_obligations': ['kani:' + n for n in kfail], 'backend': 'kani/cbmc complete', 'verifier_output': kani['raw_tail'][-1500:], 'input': cex,
+                           'replay_cmd': 'python3 tools/check.py --replay ' + rpath}, open(rpath, 'w'), indent=1)
+                write_evidence(pid, a.tier, seed, t0, {'obligations': len(kfail), 'discharged': 0, 'checker_cmd': kani['cmd'], 'trusted_base': []}, ASSUMPTIONS_COMMON, len(kfail))
+                for n in kfail:
+                    print('FAILED-OBLIGATION property=%s obligation=kani:%s' % (pid, n))
+                print('VIOLATION property=%s replay=%s' % (pid, rpath))
+                return 1
     if cls == 'tool-error':
         msg = (run['diagnostics'][0]['message'] if run['diagnostics'] else run.get('stderr_tail', '')[-300:])
         return undecided('verifier-did-not-run-to-completion:' + re.sub(r'\s+', '_', msg)[:200])
@@ -159,11 +232,9 @@ def main():
 
     # 4. the property's obligations
     obl = []
-    kani = None
     for pat, kind in obligations.OBLIGATIONS[pid]:
         if kind.startswith('kani'):
-            if kani is None:
-                kani = runkani.run_all()
+            if True:
                 if not kani['harnesses'] or not kani.get('complete_summary'):
                     return undecided('kani-did-not-run-to-completion:' + re.sub(r'\s+', '_', kani['raw_tail'][-200:]))
             hits = sorted(n for n in kani['harnesses'] if fnmatch.fnmatchcase(n, pat))
@@ -199,12 +270,21 @@ def main():
         'inputs_sha256': info['inputs'], 'generated_sha256': info['generated_sha256'],
         'rewrites_applied': info['rewrites'], 'merge': info['merge'],
         'samples': [{'obligation': n, 'kind': k} for n, k in obl[:5]],
-        'bounded': [n for n, k in obl if k.startswith('kani-bounded')],
+        'bounded': [n for n, k in obl if k.startswith('kani-bounded')] + ['replay:' + m for m in getattr(obligations, 'MEASUREMENTS', {}).get(pid, [])],
+        'bounded_measurements': measurements,
         'kani': ({'wall_s': kani['wall_s'], 'cached': kani['cached'], 'harnesses': len(kani['harnesses'])} if kani else None),
         'explanation': 'each obligation is the Verus verification condition set of one real function of /repo/src (re-extracted on this run) against its inserted contract, or a lemma over those contracts',
     }
+    lost_in = {}
+    for m_, mi in info['merge'].items():
+        for fn in mi.get('lost_in', []):
+            lost_in.setdefault(fn, []).append(m_)
+    cov['contract_anchors_lost_in'] = sorted(lost_in)
     if failed:
         names = [n for n, k in failed]
+        unsure = [n for n in names if not n.startswith('kani:') and n.split('::')[-1].split('__nec_')[0] in lost_in]
+        if unsure and len(unsure) == len(names):
+            return undecided('contract-anchor-lost-and-proof-of-changed-code-failed-in:' + ','.join(unsure)[:150], cov)
         ds = diag_for(run, text, names)
         if rlimit_hit and all(any(('rlimit' in d['message'] or 'Resource limit' in d['message']) for d in diag_for(run, text, [n])) for n in names):
             return undecided('resource-limit-in:' + ','.join(names)[:150], cov)
@@ -214,6 +294,11 @@ def main():
             if n.startswith('kani:'):
                 cex = {'harness': n[5:], 'kani_concrete_playback': runkani.counterexample(n[5:])}
                 break
+        if cex is None:
+            fi = find_failing_input(pid)
+            if fi:
+                cex = fi
+                print('FAILING-INPUT property=%s %s' % (pid, fi['output'].splitlines()[0][:300] if fi['output'] else ''))
         h = hashlib.sha256((pid + info['generated_sha256']).encode()).hexdigest()[:12]
         rpath = os.path.join(REPLAYS, '%s-%s.json' % (pid, h))
         json.dump({'property': pid, 'failed_obligations': names, 'backend': 'verus/z3',
@@ -225,29 +310,20 @@ def main():
             print('FAILED-OBLIGATION property=%s obligation=%s' % (pid, n))
         print('VIOLATION property=%s replay=%s%s' % (pid, rpath, '' if cex else ' no-failing-input-found'))
         return 1
-    kf = known_findings(pid)
-    meas = getattr(obligations, 'MEASUREMENTS', {}).get(pid, [])
-    if meas:
-        rb = replay_bin()
-        if rb is None:
-            return undecided('replay-crate-did-not-build', cov)
-        cov['bounded_measurements'] = []
-        for sub in meas:
-            try:
-                r = subprocess.run([rb, sub], capture_output=True, text=True, timeout=300)
-                rc, out = r.returncode, (r.stdout + r.stderr)
-            except subprocess.TimeoutExpired:
-                rc, out = -9, 'TIMEOUT (hang)'
-            cov['bounded_measurements'].append({'cmd': 'coset-replay ' + sub, 'rc': rc, 'label': 'bounded stand-in on the real crate, not counted as proved', 'output': out[-1500:]})
-            cov['bounded'].append('replay:' + sub)
-            if rc != 0:
+    if a.tier == 'thorough':
+        probes = getattr(obligations, 'PROBES', {}).get(pid, [])
+        if probes:
+            fi = find_failing_input(pid)
+            cov['bounded'] += ['probe:' + x for x in probes]
+            cov['probes'] = {'ran': probes, 'failing_input': fi, 'label': 'bounded stand-in on the real crate, not counted as proved'}
+            if fi:
                 os.makedirs(REPLAYS, exist_ok=True)
-                rpath = os.path.join(REPLAYS, '%s-%s.json' % (pid, sub))
-                json.dump({'property': pid, 'failed_obligations': ['replay:' + sub], 'backend': 'native execution of the real crate', 'verifier_output': out[-3000:],
-                           'input': {'kind': 'generated by coset-replay ' + sub}, 'replay_cmd': rb + ' ' + sub}, open(rpath, 'w'), indent=1)
+                rpath = os.path.join(REPLAYS, '%s-probe-%s.json' % (pid, fi['probe']))
+                json.dump({'property': pid, 'failed_obligations': ['probe:' + fi['probe']], 'backend': 'native execution of the real crate vs reference implementation', 'verifier_output': '', 'input': fi, 'replay_cmd': fi['replay_cmd']}, open(rpath, 'w'), indent=1)
                 write_evidence(pid, a.tier, seed, t0, cov, ASSUMPTIONS_COMMON, 1)
                 print('VIOLATION property=%s replay=%s' % (pid, rpath))
                 return 1
+    kf = known_findings(pid)
     if kf:
         rb = replay_bin()
         cov['known_findings'] = []
